@@ -31,13 +31,18 @@ ALL = list(KINDS)
 REDUCED = ['c', 's', 'l', 'll', 'p', 'ca', 'la', 'ns']
 
 
+P64 = {'p': (8, 8), 'fn': (8, 8), 'pa': (16, 8)}
+
+
 def layout(kinds, abi):
-    idx = 4 if abi == 'lp32' else 5
+    idx = 5 if abi == 'wide' else 4
     off = 0
     maxal = 1
     offs = []
     for k in kinds:
         size, al = KINDS[k][idx]
+        if abi == 'lp32p64' and k in P64:
+            size, al = P64[k]
         off = (off + al - 1) // al * al
         offs.append(off)
         off += size
@@ -140,7 +145,7 @@ def emit_test(n, kinds, abi):
     t.append('    if (o != RET) R.bad("roundtrip", "-", "abort", "representable field values aborted", sel);')
     t.append('  }')
     # unrepresentable field values
-    unrep = [i for i, k in enumerate(kinds) if k in (('l', 'ul', 'la') if abi == 'lp32' else ('s', 'i'))]
+    unrep = [i for i, k in enumerate(kinds) if k in (('l', 'ul', 'la') if abi != 'wide' else ('s', 'i'))]
     if unrep:
         i = unrep[0]
         f = fields[i]
@@ -148,7 +153,7 @@ def emit_test(n, kinds, abi):
         t.append('  { // a field value that is not representable on the other side must abort')
         t.append('    tn<S*> ps; ps.assign_raw_pointer(*g_sb, reinterpret_cast<S*>(g_base + 0x200)); GS g; memset(&g, 0, sizeof g); memcpy(g_mem + 0x200, &g, sizeof g);')
         t.append('    n_eval += 2; n_nontriv += 2;')
-        if abi == 'lp32':
+        if abi != 'wide':
             setter = {'l': 't.%s = 0x10000000000L;' % f, 'ul': 't.%s = 0x10000000000UL;' % f, 'la': 't.%s[1] = 0x10000000000L;' % f}[k]
             t.append('    { tn<S> t = *ps; %s' % setter)
             t.append('      int c1 = in_child([&] { *ps = t; });')
@@ -207,7 +212,7 @@ def emit(abi, tier, outdir, nchunks):
         chunks[n % nchunks].append((n, ks))
     paths = []
     for ci, ch in enumerate(chunks):
-        out = ['// GENERATED by gen/c08_gen.py', '#define C08_ABI_%s' % abi.upper(), '#include "c08_pre.hpp"']
+        out = ['// GENERATED by gen/c08_gen.py', '#define C08_ABI_%s' % ('LP32' if abi == 'lp32p64' else abi.upper())] + (['#define C08_PTR64'] if abi == 'lp32p64' else []) + ['#include "c08_pre.hpp"']
         for n, ks in ch:
             out.append(emit_struct(n, ks, abi))
         out.append('#define sandbox_fields_reflection_c08_class_Inner(f, g, ...) f(char, x, FIELD_NORMAL, ##__VA_ARGS__) g() f(long, y, FIELD_NORMAL, ##__VA_ARGS__) g()')
